@@ -122,7 +122,7 @@ def header_reader(prog, rep, path, short):
     rep.ob("C02.R2", "%s: a count of 0 is recognised as the end of the array/map" % short, end_ok, "", b.loc())
 
 
-def run(rep, tier="quick", replay=None, evidence_dir=None):
+def run(rep, tier="quick", replay=None, evidence_dir=None, collect_only=False):
     prog = Program(factsmod.extract())
     rep.rule("C02.R1", "per-shape wire tokens of decoder and encoder equal the specification table")
     rep.rule("C02.R2", "block-header readers accept negative counts followed by a byte size, and multi-block arrays/maps")
@@ -378,6 +378,8 @@ def run(rep, tier="quick", replay=None, evidence_dir=None):
             c = [t for bi, t in b.calls() if callee_names(t["func"])[0] == "std::convert::Into::into"]
             rep.ob("C02.R4", "%s delegates to the by-reference conversion" % what, len(c) == 1 and c[0]["dest"]["l"] == 0 and len(list(b.calls())) == 1, "", b.loc())
 
+    if collect_only:
+        return rep
     rep.floor("C02", "obligations", len(rep.obligations), 110)
     rep.not_decided = ["the varint and zig-zag arithmetic itself", "unscaled-integer values and sign extension widths", "interop with actual foreign bytes (needs an independent implementation at run time)"]
     return common.finish(rep, level="other",
